@@ -101,6 +101,11 @@ fn build_doc(rng: &mut Rng, nsteps: usize) -> (Doc, Vec<SendPlan>) {
                     if id.is_none() && idlocation.is_none() && rng.chance(1, 2) {
                         event = "d.anon".to_string();
                     }
+                    // the payload as the value of <content expr>, changed right after the <send>
+                    let by_content = rng.chance(1, 5);
+                    if by_content {
+                        event = format!("c.{}.{}", k, a);
+                    }
                     plans.push(SendPlan { event: event.clone(), ms, id: id.clone() });
                     // a third of the sends address the session through a variable that is re-pointed at a
                     // session that does not exist right after the <send>: target and data are those of the
@@ -114,7 +119,14 @@ fn build_doc(rng: &mut Rng, nsteps: usize) -> (Doc, Vec<SendPlan>) {
                         target: if via_var { Some("@var:tgt".into()) } else { None },
                         delay_ms: ms,
                         id,
-                        params: if rng.chance(1, 4) { vec![("v".into(), Expr::Var("x".into())), ("@loc:a".into(), Expr::Var("arr".into()))] } else { vec![("v".into(), Expr::Var("x".into()))] },
+                        params: if by_content {
+                            // (rfsm-expression refuses containers as the result of a script: scalars only)
+                            vec![("@content".into(), Expr::Var("x".into()))]
+                        } else if rng.chance(1, 4) {
+                            vec![("v".into(), Expr::Var("x".into())), ("@loc:a".into(), Expr::Var("arr".into()))]
+                        } else {
+                            vec![("v".into(), Expr::Var("x".into()))]
+                        },
                         delay_text: Some(text),
                         delay_expr: rng.chance(1, 4),
                         idlocation,
@@ -161,6 +173,7 @@ fn build_doc(rng: &mut Rng, nsteps: usize) -> (Doc, Vec<SendPlan>) {
         content: vec![Exec::Mark("d".into(), vec![Expr::EventName, Expr::EventData("v".into()), Expr::EventField("sendid".into())])],
         ..Default::default()
     });
+    run.trans.push(Trans { events: vec!["c".into()], label: "deliver-content".into(), content: vec![Exec::Mark("c".into(), vec![Expr::EventName, Expr::EventField("sendid".into())])], ..Default::default() });
     run.trans.push(Trans { events: vec!["stop".into()], targets: vec!["fin".into()], label: "stop".into(), ..Default::default() });
     root.children.push(run);
     root.children.push(Node::new("fin", Kind::Final));
@@ -335,7 +348,7 @@ impl Property for C16Prop {
                         }
                         if let Some(i) = items.iter_mut().find(|i| i.item == *item) {
                             if Some(*c) == chan {
-                                i.deliveries.push((r.time, ev_name(ev).to_string(), ev.as_ref().and_then(|e| e.params.clone()), r.seq));
+                                i.deliveries.push((r.time, ev_name(ev).to_string(), ev.as_ref().and_then(crate::trace::payload_of), r.seq));
                             }
                         }
                     }
